@@ -17,7 +17,8 @@ pub enum C11Case {
     /// `T::try_from(x)` / `T::try_from(&x)` (`From` for Bvd/Bv)
     FromNat { ty: Tid, x: Nat, by_ref: bool },
     /// `T::try_from(&[J])`
-    FromSlice { ty: Tid, nty: NatTy, items: Vec<Nat> },
+    /// `skew`: the slice starts this many elements into a larger buffer
+    FromSlice { ty: Tid, nty: NatTy, items: Vec<Nat>, #[serde(default)] skew: usize },
     /// `uN::try_from(&v)` / `uN::try_from(v)`
     ToNat { a: Operand, nty: NatTy, by_value: bool },
     /// Bit <-> bool / uN
@@ -76,7 +77,7 @@ impl Property for C11 {
     fn strategy(&self, tier: Tier) -> BoxedStrategy<C11Case> {
         let maxitems = tier.pick(6, 13);
         let from = (0..NT, arb_nat(), any::<bool>()).prop_map(|(ty, x, by_ref)| C11Case::FromNat { ty, x, by_ref });
-        let slice = (0..NT, arb_nat_ty(), vec(any::<u128>(), 0..maxitems)).prop_map(|(ty, nty, xs)| C11Case::FromSlice { ty, nty, items: xs.into_iter().map(|x| Nat::new(nty, x)).collect() });
+        let slice = (0..NT, arb_nat_ty(), vec(any::<u128>(), 0..maxitems)).prop_map(|(ty, nty, xs)| C11Case::FromSlice { ty, nty, skew: xs.len() % 4, items: xs.into_iter().map(|x| Nat::new(nty, x)).collect() });
         let to = (arb_operand(tier), arb_nat_ty(), any::<bool>(), any::<u16>(), 0u8..4).prop_map(|(mut a, nty, by_value, f, mode)| {
             // bias: make the significant-bit count land around the target width
             if mode == 0 && a.len() > 0 {
@@ -162,8 +163,39 @@ impl Property for C11 {
                     for pat in 0..5u128 {
                         // patterns 3 and 4 have an all-zero tail (only element 0 / elements 0..2 set)
                         let items: Vec<Nat> = (0..count).map(|i| Nat::new(nty, match pat { 0 => nty.maxv(), 1 => (i as u128 + 1) * 0x0123_4567_89AB_CDEF_0F1E_2D3C_4B5A_6978, 2 => 1u128 << ((i * 7) % nty.bits()), 3 => if i == 0 { nty.maxv() } else { 0 }, _ => if i < 2 { 5 } else { 0 } })).collect();
-                        if !f(C11Case::FromSlice { ty, nty, items }) {
-                            return;
+                        for skew in [0usize, 1, 3] {
+                            if !f(C11Case::FromSlice { ty, nty, items: items.clone(), skew }) {
+                                return;
+                            }
+                        }
+                    }
+                }
+            }
+        }
+        // vectors of thousands of bits -> integers
+        for ty in [TID_D, TID_A, 18u8] {
+            let c = fixed_cap(ty).unwrap_or(usize::MAX);
+            for n in [577usize, 640, 1024, 1025, 1343, 2048, 4097, 8193] {
+                if !sh.mine() {
+                    continue;
+                }
+                let n = n.min(c);
+                let mut vals = long_values(n);
+                vals.push(Bits::zeros(n));
+                // only a high word set, plus a small low value
+                for wtop in [n - 1, n - 65, n - 129, n / 2 + 3, 130] {
+                    let mut b = Bits::from_u128(0x2a, n);
+                    b.0[wtop] = true;
+                    vals.push(b);
+                }
+                for a in vals {
+                    for nty in NAT_TYS {
+                        for by_value in [false, true] {
+                            for prov in [Prov::Canon, Prov::Spare(200)] {
+                                if !f(C11Case::ToNat { a: Operand { ty, bits: a.clone(), prov }, nty, by_value }) {
+                                    return;
+                                }
+                            }
                         }
                     }
                 }
@@ -243,12 +275,12 @@ impl Property for C11 {
                 st.note(case, near || x.v == x.ty.maxv() || x.v == 0);
                 Ok(())
             }
-            C11Case::FromSlice { ty, nty, items } => {
+            C11Case::FromSlice { ty, nty, items, skew } => {
                 let what = format!("from-slice-{}:{}", nty.name(), kind_of(*ty));
                 let total = items.len() * nty.bits();
                 let cap = fixed_cap(*ty);
                 let raw: Vec<u128> = items.iter().map(|x| x.v).collect();
-                let r = catch(|| tid_match!(*ty, T => T::from_slice(*nty, &raw).map(|v| v.wrap())));
+                let r = catch(|| tid_match!(*ty, T => T::from_slice_skewed(*nty, &raw, *skew).map(|v| v.wrap())));
                 let r = match r {
                     Ok(r) => r,
                     Err(p) => fail!(format!("{}/panic", what), "{}::try_from(&[{}; {}]) panicked: {}", NAMES[*ty as usize], nty.name(), items.len(), p),
@@ -271,6 +303,7 @@ impl Property for C11 {
                     }
                 }
                 st.class("from slice");
+                st.class_if(*skew > 0, "from slice: sub-slice not starting at the allocation");
                 st.class_if(items.is_empty(), "empty slice");
                 st.class_if(!fits, "from slice: overflow");
                 st.note(case, cap.map_or(items.len() >= 2, |c| (total as i64 - c as i64).abs() <= nty.bits() as i64));
